@@ -356,6 +356,16 @@ fn plant_record_lookalikes(r: &mut Rng, rec: &mut Vec<u8>) -> Vec<usize> {
         rec[k..k + pat.len()].copy_from_slice(&pat);
         hot.push(k);
     }
+    // ... or a copy of the record's own first bytes (record header, handshake header, version): a segment that
+    // starts there and ends inside the copy repeats the start of what has been delivered so far
+    if r.chance(1, 4) {
+        let k = r.urange(5, 12);
+        let at = 11 + r.usize_below(32 - k);
+        let own: Vec<u8> = rec[..k].to_vec();
+        rec[at..at + k].copy_from_slice(&own);
+        hot.push(at);
+        hot.push(at + r.urange(5, k));
+    }
     // session id (if present): offset 44, 32 bytes
     if rec[43] == 32 && r.chance(1, 2) {
         let pat = lookalike(r, true);
